@@ -16,6 +16,11 @@ func stateJSchema(s *Scanner, _ byte) *jerr.JApiError {
 	if je != nil {
 		return je
 	}
+	if schemaLength == 0 && s.curIndex < s.dataSize {
+		// The bytes here (a lone comment sign, a slash, ...) are not a schema: a one-byte
+		// schema lexeme must not be made up for them.
+		return s.japiErrorUnexpectedChar("at the beginning of the schema", "")
+	}
 	if schemaLength > 0 {
 		s.curIndex += bytes.Index(schemaLength - 1)
 	}
